@@ -563,6 +563,75 @@ func (se *SpecEnv) index(x Val, ie SExpr) Val {
 }
 
 func (se *SpecEnv) quant(e SQuant) Val {
+	// positive existential in an assumption (outside any quantifier):
+	// skolemise with fresh constants, remembered as instantiation candidates
+	if !e.Forall && !se.goal && !se.neg && !se.nopol && se.qdepth == 0 {
+		saved := map[string]*Val{}
+		for _, p := range e.Vars {
+			t := se.resolveType(p.Type)
+			sorts := se.f.l.leafSorts(t)
+			if len(sorts) != 1 {
+				sfail("quantified variable %s of non-scalar type %s", p.Name, t)
+			}
+			sk := se.f.c.fresh("sk_"+p.Name, sorts[0])
+			se.f.c.skolems = append(se.f.c.skolems, skolemConst{sorts[0], sk})
+			if old, ok := se.vars[p.Name]; ok {
+				o := old
+				saved[p.Name] = &o
+			} else {
+				saved[p.Name] = nil
+			}
+			se.vars[p.Name] = Val{T: t, L: []string{sk}}
+		}
+		body := se.evalBool(e.Body)
+		for n, v := range saved {
+			if v == nil {
+				delete(se.vars, n)
+			} else {
+				se.vars[n] = *v
+			}
+		}
+		return boolVal(body)
+	}
+	// positive existential in a goal without a declared witness: offer the
+	// skolem constants of assumed existentials as explicit instances
+	// (P(sk) implies the existential, so the disjunction is equivalent)
+	if !e.Forall && se.goal && !se.neg && !se.nopol && se.qdepth == 0 && len(e.Vars) == 1 && len(se.f.c.skolems) > 0 {
+		if _, declared := se.witness[e.Vars[0].Name]; !declared {
+			p := e.Vars[0]
+			t := se.resolveType(p.Type)
+			sorts := se.f.l.leafSorts(t)
+			var alts []string
+			if len(sorts) == 1 {
+				cands := se.f.c.skolems
+				n := 0
+				for i := len(cands) - 1; i >= 0 && n < 6; i-- {
+					if cands[i].sort != sorts[0] {
+						continue
+					}
+					n++
+					old, had := se.vars[p.Name]
+					se.vars[p.Name] = Val{T: t, L: []string{cands[i].name}}
+					alts = append(alts, se.evalBool(e.Body))
+					if had {
+						se.vars[p.Name] = old
+					} else {
+						delete(se.vars, p.Name)
+					}
+				}
+			}
+			if len(alts) > 0 {
+				se.goal = false // evaluate the original quantifier as is
+				orig := se.quantRaw(e)
+				se.goal = true
+				return boolVal(or(append(alts, orig.L[0])...))
+			}
+		}
+	}
+	return se.quantRaw(e)
+}
+
+func (se *SpecEnv) quantRaw(e SQuant) Val {
 	// positive existential in a goal with declared witnesses: instantiate
 	if !e.Forall && se.goal && !se.neg && !se.nopol && se.witness != nil {
 		all := true
